@@ -2,7 +2,7 @@
 """keep_mutant.py <prop> <k> <slug> <caught_by csv> <missed_by csv> -- copy a confirmed seeded change into /verif/seeded/<prop>-<slug>/"""
 import sys, os, shutil, json, re
 prop, k, slug, caught, missed = sys.argv[1:6]
-src = f"/tmp/mut-{prop}"
+src = os.environ.get("MUT_SRC", f"/tmp/mut-{prop}")
 dst = f"/verif/seeded/{prop}-m{k}-{slug}"
 os.makedirs(dst, exist_ok=True)
 shutil.copy(f"{src}/mutant{k}.diff", f"{dst}/patch.diff")
